@@ -94,21 +94,24 @@ func VerifC19Batch() {
 	// the individual gets it is compared with
 	var proj *string
 	var names map[string]string
-	switch nd.Choice("projection", 3) {
+	var legacy []string
+	switch nd.Choice("projection", 4) {
 	case 1:
 		proj, names = aws.String("#v, p"), map[string]string{"#v": "v"}
 	case 2:
 		proj = aws.String("v, p")
+	case 3: // the legacy option: whatever it does, it does the same in the batch and in the single get
+		legacy = []string{"v"}
 	}
 	for t, ka := range keys {
-		ka.ProjectionExpression, ka.ExpressionAttributeNames = proj, names
+		ka.ProjectionExpression, ka.ExpressionAttributeNames, ka.AttributesToGet = proj, names, legacy
 		keys[t] = ka
 	}
 	absent := false
 	want := map[string][]vItem{}
 	for ti, t := range tables {
 		for _, k := range asked[ti] {
-			g, e := c.GetItem(vCtx, &dynamodb.GetItemInput{TableName: aws.String(t), Key: vItem{"p": vS(k)}, ProjectionExpression: proj, ExpressionAttributeNames: names})
+			g, e := c.GetItem(vCtx, &dynamodb.GetItemInput{TableName: aws.String(t), Key: vItem{"p": vS(k)}, ProjectionExpression: proj, ExpressionAttributeNames: names, AttributesToGet: legacy})
 			nd.Assert(e == nil, "C19-get-noerr")
 			if e == nil && len(g.Item) > 0 {
 				want[t] = append(want[t], g.Item)
